@@ -100,8 +100,11 @@ def lattice_case(item, ctx=None):
   kw = {}
   if item["ju"]:
     kw["joint_unimodalities"] = [(tuple(a), b) for a, b in item["ju"]]
-  layer = tfl.layers.Lattice(lattice_sizes=sizes, units=units, monotonicities=mono,
-                             unimodalities=uni, output_min=lo, output_max=hi,
+  spell = (sum(sizes) + units + item["seed"]) % 2 == 1   # alternate int / string spellings
+  mono_arg = [{1: "increasing", 0: "none"}[m] for m in mono] if spell else mono
+  uni_arg = [{1: "valley", -1: "peak", 0: "none"}[u] for u in uni] if spell else uni
+  layer = tfl.layers.Lattice(lattice_sizes=sizes, units=units, monotonicities=mono_arg,
+                             unimodalities=uni_arg, output_min=lo, output_max=hi,
                              kernel_initializer=item["init"], **kw)
   layer.build((None, d) if units == 1 else (None, units, d))
   K = np.asarray(layer.kernel.numpy(), dtype=np.float64)
